@@ -1,0 +1,299 @@
+// Verification hooks.  Compiled only with `--cfg curve25519_dalek_verif`; with the
+// flag off this file is not part of the crate.  Everything here *adds* read access to
+// crate-private items for the external conformance harness; no behaviour changes.
+
+//! Verification hooks (only with `--cfg curve25519_dalek_verif`).
+#![allow(missing_docs, non_snake_case, clippy::unwrap_used)]
+
+use core::sync::atomic::{AtomicU8, Ordering};
+
+use subtle::{Choice, ConditionallyNegatable, ConditionallySelectable, ConstantTimeEq};
+
+use crate::edwards::EdwardsPoint;
+use crate::field::FieldElement;
+use crate::scalar::Scalar;
+
+// ------------------------------------------------------------------------
+// Run-time dispatch: override and log
+// ------------------------------------------------------------------------
+
+static FORCED_BACKEND: AtomicU8 = AtomicU8::new(0);
+static LAST_BACKEND: AtomicU8 = AtomicU8::new(0);
+
+/// 0 = no override, 1 = serial, 2 = AVX2, 3 = AVX-512 IFMA.
+pub fn set_forced_backend(kind: u8) {
+    FORCED_BACKEND.store(kind, Ordering::SeqCst);
+}
+pub fn forced_backend() -> u8 {
+    FORCED_BACKEND.load(Ordering::SeqCst)
+}
+pub fn note_backend(kind: u8) {
+    LAST_BACKEND.store(kind, Ordering::SeqCst);
+}
+/// The decision most recently returned by the dispatcher (0 = never called).
+pub fn last_backend() -> u8 {
+    LAST_BACKEND.swap(0, Ordering::SeqCst)
+}
+
+// ------------------------------------------------------------------------
+// Field elements
+// ------------------------------------------------------------------------
+
+#[cfg(curve25519_dalek_bits = "64")]
+type Limb = u64;
+#[cfg(curve25519_dalek_bits = "32")]
+type Limb = u32;
+
+/// Number of limbs of the selected serial field backend.
+#[cfg(curve25519_dalek_bits = "64")]
+pub const NLIMBS: usize = 5;
+#[cfg(curve25519_dalek_bits = "32")]
+pub const NLIMBS: usize = 10;
+
+/// Name of the compiled serial backend.
+pub fn backend_name() -> &'static str {
+    #[cfg(all(curve25519_dalek_backend = "fiat", curve25519_dalek_bits = "64"))]
+    return "fiat_u64";
+    #[cfg(all(curve25519_dalek_backend = "fiat", curve25519_dalek_bits = "32"))]
+    return "fiat_u32";
+    #[cfg(all(not(curve25519_dalek_backend = "fiat"), curve25519_dalek_bits = "64"))]
+    return "u64";
+    #[cfg(all(not(curve25519_dalek_backend = "fiat"), curve25519_dalek_bits = "32"))]
+    return "u32";
+}
+
+#[derive(Copy, Clone)]
+pub struct Fe(pub(crate) FieldElement);
+
+#[cfg(not(curve25519_dalek_backend = "fiat"))]
+fn raw(fe: &FieldElement) -> &[Limb; NLIMBS] {
+    &fe.0
+}
+#[cfg(curve25519_dalek_backend = "fiat")]
+fn raw(fe: &FieldElement) -> &[Limb; NLIMBS] {
+    &(fe.0).0
+}
+
+impl Fe {
+    pub const ZERO: Fe = Fe(FieldElement::ZERO);
+    pub const ONE: Fe = Fe(FieldElement::ONE);
+
+    /// Build an element directly from raw limbs (no reduction).
+    pub fn from_limbs(limbs: &[u64]) -> Fe {
+        assert!(limbs.len() == NLIMBS);
+        let mut l = [0 as Limb; NLIMBS];
+        for i in 0..NLIMBS {
+            l[i] = limbs[i] as Limb;
+            assert!(l[i] as u64 == limbs[i]);
+        }
+        Fe(FieldElement::from_limbs(l))
+    }
+    /// The raw limbs (first `NLIMBS` entries are meaningful).
+    pub fn limbs(&self) -> [u64; 10] {
+        let mut out = [0u64; 10];
+        let r = raw(&self.0);
+        for i in 0..NLIMBS {
+            out[i] = r[i] as u64;
+        }
+        out
+    }
+    pub fn from_bytes(b: &[u8; 32]) -> Fe {
+        Fe(FieldElement::from_bytes(b))
+    }
+    pub fn as_bytes(&self) -> [u8; 32] {
+        self.0.as_bytes()
+    }
+    pub fn add(&self, o: &Fe) -> Fe {
+        Fe(&self.0 + &o.0)
+    }
+    pub fn add_assign(&mut self, o: &Fe) {
+        self.0 += &o.0;
+    }
+    pub fn sub(&self, o: &Fe) -> Fe {
+        Fe(&self.0 - &o.0)
+    }
+    pub fn sub_assign(&mut self, o: &Fe) {
+        self.0 -= &o.0;
+    }
+    pub fn mul(&self, o: &Fe) -> Fe {
+        Fe(&self.0 * &o.0)
+    }
+    pub fn mul_assign(&mut self, o: &Fe) {
+        self.0 *= &o.0;
+    }
+    pub fn neg(&self) -> Fe {
+        Fe(-&self.0)
+    }
+    pub fn negate(&mut self) {
+        #[cfg(not(all(curve25519_dalek_backend = "fiat", curve25519_dalek_bits = "64")))]
+        self.0.negate();
+        #[cfg(all(curve25519_dalek_backend = "fiat", curve25519_dalek_bits = "64"))]
+        {
+            self.0 = -&self.0;
+        }
+    }
+    pub fn square(&self) -> Fe {
+        Fe(self.0.square())
+    }
+    pub fn square2(&self) -> Fe {
+        Fe(self.0.square2())
+    }
+    pub fn pow2k(&self, k: u32) -> Fe {
+        Fe(self.0.pow2k(k))
+    }
+    pub fn invert(&self) -> Fe {
+        Fe(self.0.invert())
+    }
+    pub fn invsqrt(&self) -> (bool, Fe) {
+        let (c, r) = self.0.invsqrt();
+        (c.into(), Fe(r))
+    }
+    pub fn sqrt_ratio_i(u: &Fe, v: &Fe) -> (bool, Fe) {
+        let (c, r) = FieldElement::sqrt_ratio_i(&u.0, &v.0);
+        (c.into(), Fe(r))
+    }
+    pub fn pow22501(&self) -> (Fe, Fe) {
+        let (a, b) = self.0.verif_pow22501();
+        (Fe(a), Fe(b))
+    }
+    pub fn pow_p58(&self) -> Fe {
+        Fe(self.0.verif_pow_p58())
+    }
+    #[cfg(feature = "alloc")]
+    pub fn batch_invert(inputs: &mut [Fe]) {
+        let mut v: alloc::vec::Vec<FieldElement> = inputs.iter().map(|f| f.0).collect();
+        FieldElement::batch_invert(&mut v);
+        for (o, i) in inputs.iter_mut().zip(v.into_iter()) {
+            o.0 = i;
+        }
+    }
+    pub fn is_negative(&self) -> bool {
+        self.0.is_negative().into()
+    }
+    pub fn is_zero(&self) -> bool {
+        self.0.is_zero().into()
+    }
+    pub fn ct_eq(&self, o: &Fe) -> bool {
+        self.0.ct_eq(&o.0).into()
+    }
+    pub fn conditional_select(a: &Fe, b: &Fe, c: bool) -> Fe {
+        Fe(FieldElement::conditional_select(&a.0, &b.0, Choice::from(c as u8)))
+    }
+    pub fn conditional_assign(&mut self, o: &Fe, c: bool) {
+        self.0.conditional_assign(&o.0, Choice::from(c as u8));
+    }
+    pub fn conditional_swap(a: &mut Fe, b: &mut Fe, c: bool) {
+        FieldElement::conditional_swap(&mut a.0, &mut b.0, Choice::from(c as u8));
+    }
+    pub fn conditional_negate(&mut self, c: bool) {
+        self.0.conditional_negate(Choice::from(c as u8));
+    }
+}
+
+// ------------------------------------------------------------------------
+// Scalars: digit recodings and raw construction
+// ------------------------------------------------------------------------
+
+/// A `Scalar` holding exactly these bytes (no reduction, no masking).
+pub fn scalar_from_raw_bytes(bytes: [u8; 32]) -> Scalar {
+    Scalar { bytes }
+}
+pub fn scalar_as_radix_16(s: &Scalar) -> [i8; 64] {
+    s.as_radix_16()
+}
+#[cfg(feature = "alloc")]
+pub fn scalar_as_radix_2w(s: &Scalar, w: usize) -> [i8; 64] {
+    s.as_radix_2w(w)
+}
+#[cfg(feature = "alloc")]
+pub fn scalar_to_radix_2w_size_hint(w: usize) -> usize {
+    Scalar::to_radix_2w_size_hint(w)
+}
+pub fn scalar_non_adjacent_form(s: &Scalar, w: usize) -> [i8; 256] {
+    s.non_adjacent_form(w)
+}
+
+// ------------------------------------------------------------------------
+// Edwards points: raw coordinates
+// ------------------------------------------------------------------------
+
+pub fn edwards_coords(p: &EdwardsPoint) -> [Fe; 4] {
+    [Fe(p.X), Fe(p.Y), Fe(p.Z), Fe(p.T)]
+}
+pub fn edwards_from_coords(c: &[Fe; 4]) -> EdwardsPoint {
+    EdwardsPoint {
+        X: c[0].0,
+        Y: c[1].0,
+        Z: c[2].0,
+        T: c[3].0,
+    }
+}
+/// `EdwardsPoint::double` (pub(crate) in the crate).
+pub fn edwards_double(p: &EdwardsPoint) -> EdwardsPoint {
+    p.double()
+}
+pub fn edwards_mul_by_pow_2(p: &EdwardsPoint, k: u32) -> EdwardsPoint {
+    p.mul_by_pow_2(k)
+}
+
+// ------------------------------------------------------------------------
+// Constants and tables
+// ------------------------------------------------------------------------
+
+/// A named crate-private constant: raw limbs and (for field elements) canonical bytes.
+#[cfg(feature = "alloc")]
+pub struct ConstDump {
+    pub name: &'static str,
+    /// "field" | "scalar" | "word"
+    pub kind: &'static str,
+    pub limbs: alloc::vec::Vec<u64>,
+    pub bytes: alloc::vec::Vec<u8>,
+}
+
+#[cfg(feature = "alloc")]
+fn fe_dump(name: &'static str, f: &FieldElement) -> ConstDump {
+    ConstDump {
+        name,
+        kind: "field",
+        limbs: raw(f).iter().map(|x| *x as u64).collect(),
+        bytes: f.as_bytes().to_vec(),
+    }
+}
+
+#[cfg(feature = "alloc")]
+pub fn constants() -> alloc::vec::Vec<ConstDump> {
+    use crate::constants as k;
+    let mut v = alloc::vec::Vec::new();
+    v.push(fe_dump("MINUS_ONE", &k::MINUS_ONE));
+    v.push(fe_dump("EDWARDS_D", &k::EDWARDS_D));
+    v.push(fe_dump("EDWARDS_D2", &k::EDWARDS_D2));
+    v.push(fe_dump("ONE_MINUS_EDWARDS_D_SQUARED", &k::ONE_MINUS_EDWARDS_D_SQUARED));
+    v.push(fe_dump("EDWARDS_D_MINUS_ONE_SQUARED", &k::EDWARDS_D_MINUS_ONE_SQUARED));
+    v.push(fe_dump("SQRT_AD_MINUS_ONE", &k::SQRT_AD_MINUS_ONE));
+    v.push(fe_dump("INVSQRT_A_MINUS_D", &k::INVSQRT_A_MINUS_D));
+    v.push(fe_dump("SQRT_M1", &k::SQRT_M1));
+    v.push(fe_dump("APLUS2_OVER_FOUR", &k::APLUS2_OVER_FOUR));
+    v.push(fe_dump("MONTGOMERY_A", &k::MONTGOMERY_A));
+    v.push(fe_dump("MONTGOMERY_A_NEG", &k::MONTGOMERY_A_NEG));
+    v.push(fe_dump("FE_ZERO", &FieldElement::ZERO));
+    v.push(fe_dump("FE_ONE", &FieldElement::ONE));
+    v.push(fe_dump("FE_MINUS_ONE", &FieldElement::MINUS_ONE));
+    v.push(ConstDump { name: "L", kind: "scalar", limbs: k::L.0.iter().map(|x| *x as u64).collect(), bytes: alloc::vec::Vec::new() });
+    v.push(ConstDump { name: "R", kind: "scalar", limbs: k::R.0.iter().map(|x| *x as u64).collect(), bytes: alloc::vec::Vec::new() });
+    v.push(ConstDump { name: "RR", kind: "scalar", limbs: k::RR.0.iter().map(|x| *x as u64).collect(), bytes: alloc::vec::Vec::new() });
+    v.push(ConstDump { name: "LFACTOR", kind: "word", limbs: alloc::vec![k::LFACTOR as u64], bytes: alloc::vec::Vec::new() });
+    v
+}
+
+/// Raw entry `table[i].0[j]` of the radix-16 basepoint table: (y+x, y-x, 2dxy).
+#[cfg(feature = "precomputed-tables")]
+pub fn basepoint_table_entry(i: usize, j: usize) -> [Fe; 3] {
+    let e = &crate::constants::ED25519_BASEPOINT_TABLE.0[i].0[j];
+    [Fe(e.y_plus_x), Fe(e.y_minus_x), Fe(e.xy2d)]
+}
+/// Raw entry `k` of the serial affine odd-multiples table: (y+x, y-x, 2dxy).
+#[cfg(feature = "precomputed-tables")]
+pub fn affine_odd_multiples_entry(k: usize) -> [Fe; 3] {
+    let e = &crate::constants::AFFINE_ODD_MULTIPLES_OF_BASEPOINT.0[k];
+    [Fe(e.y_plus_x), Fe(e.y_minus_x), Fe(e.xy2d)]
+}
